@@ -201,6 +201,21 @@ def run_shard(check, tier, seed, n_examples, out_path=None):
         check.extra(tier, seed, stats)
     except ViolationFound as v:
         failing = (v.case, v.violations)
+    except Exception as e:  # noqa: BLE001
+        # Hypothesis reports a failure that does not reproduce identically while shrinking as Flaky*: fall back to
+        # the last failing case seen and confirm it by plain re-execution; if it does not reproduce it is a
+        # harness problem (exit 2), never a pass and never an unconfirmed violation
+        if type(e).__name__.startswith('Flaky') and stats.last_failing is not None:
+            case = stats.last_failing[0]
+            for _ in range(3):
+                verdict = check.examine(case)
+                if verdict.violations:
+                    failing = (case, verdict.violations)
+                    break
+            else:
+                raise
+        else:
+            raise
     if out_path:
         with open(out_path, 'w') as f:
             json.dump({'stats': stats.to_json(),
